@@ -287,37 +287,39 @@ impl Matcher {
                 day_end += 1;
             }
 
-            // Apply corporate actions for the day (before same-day buys)
+            // Apply corporate actions for the day (before same-day buys).
+            // Accumulations first, then capital returns, so the outcome does not depend
+            // on the order in which same-day events are listed in the input.
             for tx in &transactions[i..day_end] {
-                match &tx.operation {
-                    Operation::CapReturn {
-                        total_value, fees, ..
-                    } => {
-                        let net_value = *total_value - *fees;
-                        if let Some(ledger) = ledgers.get_mut(&tx.ticker) {
-                            let basis_before = ledger.total_adjusted_cost();
-                            if net_value > basis_before {
-                                return Err(CgtError::InvalidTransaction(format!(
-                                    "CAPRETURN {} on {}: capital distribution £{} exceeds \
-                                     allowable cost £{}. TCGA92/S122(2) does not apply when \
-                                     distribution exceeds expenditure (CG57847). \
-                                     Part-disposal under S122(1) or election under S122(4) \
-                                     is required.",
-                                    tx.ticker,
-                                    tx.date,
-                                    net_value.round_dp(2),
-                                    basis_before.round_dp(2)
-                                )));
-                            }
-                            ledger.apply_cost_adjustment(-net_value);
+                if let Operation::Accumulation { total_value, .. } = &tx.operation
+                    && let Some(ledger) = ledgers.get_mut(&tx.ticker)
+                {
+                    ledger.apply_cost_adjustment(*total_value);
+                }
+            }
+            for tx in &transactions[i..day_end] {
+                if let Operation::CapReturn {
+                    total_value, fees, ..
+                } = &tx.operation
+                {
+                    let net_value = *total_value - *fees;
+                    if let Some(ledger) = ledgers.get_mut(&tx.ticker) {
+                        let basis_before = ledger.total_adjusted_cost();
+                        if net_value > basis_before {
+                            return Err(CgtError::InvalidTransaction(format!(
+                                "CAPRETURN {} on {}: capital distribution £{} exceeds \
+                                 allowable cost £{}. TCGA92/S122(2) does not apply when \
+                                 distribution exceeds expenditure (CG57847). \
+                                 Part-disposal under S122(1) or election under S122(4) \
+                                 is required.",
+                                tx.ticker,
+                                tx.date,
+                                net_value.round_dp(2),
+                                basis_before.round_dp(2)
+                            )));
                         }
+                        ledger.apply_cost_adjustment(-net_value);
                     }
-                    Operation::Accumulation { total_value, .. } => {
-                        if let Some(ledger) = ledgers.get_mut(&tx.ticker) {
-                            ledger.apply_cost_adjustment(*total_value);
-                        }
-                    }
-                    _ => {}
                 }
             }
 
